@@ -591,6 +591,30 @@ package loadbalancer
 //@   decreases len(pool.idle)
 //@   modifies pool.idle, net.Conn.closed
 
+// The periodic sweep of one backend's idle list. connPool.mu guards idle/active; under every interleaving
+// (mon mode: both unknown at each acquisition, entries are connections) the sweep must be ONE critical section:
+// what it leaves in the list is judged against the list as found when the lock was taken, so a sweep that
+// filters a snapshot outside the lock and writes it back later (losing concurrent Get/Put) fails.
+//@ monitor connPool.mu c
+//@   guards idle, active
+//@   rely entries_are_connections: idleOK(c)
+//@ func (*WebSocketPool).cleanupBackend
+//@   props C20 C12
+//@   mode seq, mon
+//@   requires unlocked(p.mu) && poolsOK(p) && (has(p.pools, backend) ==> idleOK(p.pools[backend]))
+//@   ensures acq: sweep_is_one_critical_section_and_never_adds: has(p.pools, backend) ==> len(p.pools[backend].idle) <= old(len(p.pools[backend].idle))
+//@   ensures seq: never_adds: has(p.pools, backend) ==> len(p.pools[backend].idle) <= old(len(p.pools[backend].idle))
+//@   ensures seq: limits_kept: poolsOK(p)
+//@   modifies connPool.idle, net.Conn.closed, key:[]loadbalancer.pooledConn
+//@ loop (*WebSocketPool).cleanupBackend #0
+//@   props C20 C12
+//@   invariant idx: rangeindex < len(ranged)
+//@   invariant survivors_fit: len(validConns) <= rangeindex + 1 && 0 <= closedCount && closedCount <= rangeindex + 1
+//@   invariant entries: forall i int :: {ranged[i]} 0 <= i && i < len(ranged) ==> ranged[i].conn != nil
+//@   invariant held: wlocked(pool.mu) && pool != nil && unlocked(p.mu) && pool.idle == old(pool.idle)
+//@   decreases len(ranged) - rangeindex
+//@   modifies net.Conn.closed, key:[]loadbalancer.pooledConn
+
 // ---------------------------------------------------------------------------------------------------
 // Runtime reconfiguration (C11). inS(s, b): backend b is held by strategy value s.
 //@ pred inS(s Strategy, b *Backend) :=
